@@ -54,8 +54,7 @@ func (o *objectIncludeStrategy) evaluate(m *MethodEvaluator) error {
 		return nil
 	}
 
-	base.ClassInheritanceMap[classNode] =
-		append(base.ClassInheritanceMap[classNode], parentNode)
+	base.AddParentNode(classNode, parentNode)
 
 	return nil
 }
